@@ -47,6 +47,8 @@ class Prov:
     def __init__(self, f, rd: ReachingDefs):
         self.f = f
         self.rd = rd
+        from sa.inline import Inliner
+        self.inl = Inliner(f.node, rd)
         # the info object that is saved: the argument of the CKPT calls
         self.new_info_defs = set()
         self.cache_store_line = None
@@ -71,7 +73,7 @@ class Prov:
         kinds = set()
         for c in der.calls():
             if _self_call(c, ("get_info",)) and c.args:
-                a = c.args[0]
+                a = self.inl.expand(c.args[0])  # a named `prev = epoch - 1` is the same row
                 if isinstance(a, ast.BinOp) and isinstance(a.op, ast.Sub) and u(a.right) == "1":
                     kinds.add("last")
                     continue
